@@ -337,7 +337,12 @@ func corrOrefa(seed uint64, tier string, replay []string) *lib.Result {
 				}
 				if !seen[sig] && len(res.Mismatches) < 40 {
 					seen[sig] = true
-					res.Mismatches = append(res.Mismatches, lib.Mismatch{Kind: "unproved", Class: "corr-impl orefa " + sig,
+					kind := "unproved"
+					if extra := orefaSearch(fx, si); extra != nil {
+						kind = "explained"
+						res.Mismatches = append(res.Mismatches, *extra)
+					}
+					res.Mismatches = append(res.Mismatches, lib.Mismatch{Kind: kind, Class: "corr-impl orefa " + sig,
 						What:    fmt.Sprintf("implementation and Lean model differ at %s: impl %q model %q [%s]", decodeLine(fx[di]), trunc(si[di]), trunc(sm[min(di, len(sm)-1)]), decodeHistory(fx[:di+1])),
 						History: fx, Impl: si, Model: sm, Index: di})
 				}
@@ -728,4 +733,67 @@ func kernelOrefa(seed uint64, tier string, replay []string) *lib.Result {
 	}
 	res.Notes = append(res.Notes, fmt.Sprintf("%d scripted suspect histories; OrefaFS and the kernel agree on: %s", len(orefaSuspects), strings.Join(agreeing, ", ")))
 	return res
+}
+
+// orefaSearch looks for a failing input of the properties themselves on a (shrunk) history on which OrefaFS and its
+// model disagree: (1) the consistency of the tree and the path index on the implementation's dumps, (2) the Linux
+// kernel on the same history, then on the same state with read-only calls on the operands of the last call and on the
+// entries of their directories (a wrong index key shows as a name ReadDir lists but Lstat does not find).
+func orefaSearch(h lib.History, impl []string) *lib.Mismatch {
+	for i, l := range h {
+		if strings.HasSuffix(l, " dump") && i < len(impl) && strings.HasPrefix(impl[i], "dump ") {
+			if bad := orefaConsistent(impl[i]); bad != "" {
+				return &lib.Mismatch{Kind: "violation", Class: "orefa.index-tree-inconsistent", What: fmt.Sprintf("after %s the path index and the tree of OrefaFS disagree: %s [%s]", decodeLine(h[max(i-1, 0)]), bad, decodeHistory(h[:i+1])),
+					History: h[:i+1], Impl: []string{impl[i]}, Index: i}
+			}
+		}
+	}
+	var calls lib.History
+	for _, l := range h {
+		if !strings.HasSuffix(l, " dump") {
+			calls = append(calls, l)
+		}
+	}
+	try := func(c lib.History) *lib.Mismatch {
+		l, a, b := runBothWith(kOrefa, c)
+		if d := lib.FirstDiff(a, b); d >= 0 {
+			cls := kernelClassWith(kOrefa, l, a, b, d)
+			if ledgerKnown(cls) {
+				return nil
+			}
+			return &lib.Mismatch{Kind: "known", Class: cls, What: fmt.Sprintf("OrefaFS and the Linux kernel disagree at %s: OrefaFS %q, kernel %q [%s]", decodeLine(l[d]), trunc(a[d]), trunc(b[d]), decodeHistory(l[:d+1])),
+				History: l, Impl: a, Expected: b, Index: d}
+		}
+		return nil
+	}
+	if m := try(calls); m != nil {
+		return m
+	}
+	if len(calls) < 2 {
+		return nil
+	}
+	f := strings.Fields(calls[len(calls)-1])
+	pre := strings.Join(f[:2], " ")
+	var probes []string
+	for _, x := range f[3:] {
+		if strings.HasPrefix(x, "2f") {
+			p := lib.UnHex(x)
+			probes = append(probes, "lstat "+x, "readdir "+x, "readfile "+x, "walk "+x+" -")
+			for _, n := range fsNames {
+				probes = append(probes, "lstat "+lib.Hex(p+"/"+n), "readdir "+lib.Hex(p+"/"+n))
+				for _, n2 := range fsNames {
+					probes = append(probes, "lstat "+lib.Hex(p+"/"+n+"/"+n2))
+				}
+			}
+		}
+	}
+	for _, q := range probes {
+		for _, base := range []lib.History{calls, calls[:len(calls)-1]} {
+			if m := try(append(append(lib.History{}, base...), pre+" "+q)); m != nil {
+				m.What = "found next to the model/implementation disagreement at " + decodeLine(calls[len(calls)-1]) + ": " + m.What
+				return m
+			}
+		}
+	}
+	return nil
 }
